@@ -43,6 +43,13 @@ func nsOfTime(t time.Time) string {
 	return n.String()
 }
 
+// c10InRange: timestamps an int64 of nanoseconds can hold. time.Time.UnixNano is undefined outside ("a date before the
+// year 1678 or after 2262"), so such timers are outside the property; neither side registers them.
+func c10InRange(s string) bool {
+	n, ok := new(big.Int).SetString(s, 10)
+	return ok && n.IsInt64()
+}
+
 type firedTimer struct {
 	key []byte
 	t   time.Time
@@ -143,6 +150,9 @@ func (e *c10Env) step(op string) string {
 	f := strings.Fields(op)
 	switch f[0] {
 	case "set":
+		if !c10InRange(f[2]) {
+			return "outofrange"
+		}
 		key := lib.UnHex(f[1])
 		if !e.owns(key) {
 			return "notowned"
@@ -150,6 +160,9 @@ func (e *c10Env) step(op string) string {
 		e.reg.SetTimer(key, timeOfNs(f[2]))
 		return "ok"
 	case "put":
+		if !c10InRange(f[2]) {
+			return "outofrange"
+		}
 		key := lib.UnHex(f[1])
 		if !e.owns(key) {
 			return "notowned"
